@@ -87,6 +87,12 @@ func (ex *Exec) callSiteObligations(fr *Frame, ins ssa.Instruction, cname string
 	if ex.contract == nil || fr.fn != ex.root {
 		return
 	}
+	if len(ex.contract.CallSites[cname]) > 0 {
+		if ex.callsiteHit == nil {
+			ex.callsiteHit = map[string]bool{}
+		}
+		ex.callsiteHit[cname] = true
+	}
 	for i, cs := range ex.contract.CallSites[cname] {
 		cenv := ex.envFor(fr, nil)
 		for j, a := range args {
@@ -306,6 +312,8 @@ func (ex *Exec) invoke(fr *Frame, ins ssa.Instruction, cc *ssa.CallCommon, recv 
 		if c := ex.prog.Types[key]; c != nil {
 			return ex.applyContractSig(fr, ins, c, nil, cc.Signature(), append([]Val{recv}, args...), nil, "iface "+named.Obj().Name()+"."+cc.Method.Name())
 		}
+		// no specification of the interface method: the caller's `callsite iface I.M requires` clauses still apply
+		ex.callSiteObligations(fr, ins, "iface "+named.Obj().Name()+"."+cc.Method.Name(), append([]Val{recv}, args...))
 	}
 	if named, ok := it.(*types.Named); ok && named.Obj().Pkg() == nil && named.Obj().Name() == "error" && cc.Method.Name() == "Error" {
 		return ex.freshVal(types.Typ[types.String], "errstr")
@@ -1089,6 +1097,12 @@ func (ex *Exec) goStmt(fr *Frame, x *ssa.Go) {
 	}
 	// obligations the function under verification attaches to its go statements:  callsite go <fn> requires e
 	if ex.contract != nil && fr.fn == ex.root {
+		if len(ex.contract.CallSites["go"]) > 0 {
+			if ex.callsiteHit == nil {
+				ex.callsiteHit = map[string]bool{}
+			}
+			ex.callsiteHit["go"] = true
+		}
 		for i, cs := range ex.contract.CallSites["go"] {
 			ex.oblige("callsite", ex.siteOf(x, fmt.Sprintf("go:%03d", i)), x.Pos(), "at every go statement: "+cs.Text, ex.softBool(cs.E, ex.envFor(fr, nil)))
 		}
